@@ -47,10 +47,11 @@ void resolve(cocls::promise<vs::Counted> &p, int rk) {
 }
 
 void dsim_scenario() {
-    int ctor = dsim::choose(5);       // ... 4: default-constructed, init_if_needed() called explicitly (public), then get_promise()       // 0 promise-taking fn, 1 future-returning fn (pending), 2 future-returning fn (already resolved), 3 default + get_promise()
+    int ctor = dsim::choose(6);       // 5: default-constructed, init_if_needed(), then sf << fn ("same as result_of")
+    //       // ... 4: default-constructed, init_if_needed() called explicitly (public), then get_promise()       // 0 promise-taking fn, 1 future-returning fn (pending), 2 future-returning fn (already resolved), 3 default + get_promise()
     int rk = dsim::choose(3);
     int nu = 1 + dsim::choose(3);
-    int uk[3]; for (int i = 0; i < nu; i++) uk[i] = dsim::choose(6);
+    int uk[3]; for (int i = 0; i < nu; i++) uk[i] = dsim::choose(9);
     bool t0_drops_early = dsim::flip();
     bool handoff_in_ctor = dsim::flip();      // the init function itself passes the promise to the resolver thread: resolution races with the constructor
     dsim::plan_note("ctor=%d resolver=%d users=", ctor, rk); for (int i = 0; i < nu; i++) dsim::plan_note("%d", uk[i]);
@@ -68,7 +69,10 @@ void dsim_scenario() {
                     if (rk == 1) return cocls::future<vs::Counted>::set_exception(vs::make_err(9));
                     return cocls::future<vs::Counted>::set_not_value(); });
                 dsim::cell_set(RESOLVED, 1); break;
-        case 3: sf = std::make_unique<SF>(); prom = sf->get_promise(); break;     // usable promise from a default-constructed object
+        case 3: sf = std::make_unique<SF>(); if (sf->ready()) dsim::fail("C17.not_ready", "a default-constructed shared_future reports ready"); prom = sf->get_promise(); break;     // usable promise from a default-constructed object
+        case 5: sf = std::make_unique<SF>(); sf->init_if_needed();
+                *sf << [&]() -> cocls::future<vs::Counted> { return [&](cocls::promise<vs::Counted> p) { hand_over(std::move(p)); }; };
+                break;
         default: sf = std::make_unique<SF>(); sf->init_if_needed(); { SF early_copy = *sf; (void)early_copy; } prom = sf->get_promise(); break;
         }
         if (ctor != 2 && !prom && !res.joinable()) dsim::fail("C17.no_promise", "construction mode %d produced no usable promise", ctor);
@@ -80,6 +84,11 @@ void dsim_scenario() {
                 case 1: { int kind; long val = 0; try { val = copy.wait().value(); kind = 1; } catch (const vs::TestError &e) { kind = 2; val = e.code; } catch (const cocls::await_canceled_exception &) { kind = 3; } observed(i, kind, val, rk); break; }
                 case 2: { SF second = copy; copy = SF(); co_user(second, i, rk).join(); break; }           // copy of a copy, first one dropped
                 case 3: { /* drop at once */ SF gone = std::move(copy); (void)gone; break; }
+                case 6: case 7: case 8: {   // the remaining blocking accessors: join(), force_sync(), force_wait()
+                    int kind; long val = 0;
+                    try { if (k == 6) copy.join(); else if (k == 7) copy.force_sync(); else (void)copy.force_wait(); val = copy.value().value(); kind = 1; }
+                    catch (const vs::TestError &e) { kind = 2; val = e.code; } catch (const cocls::await_canceled_exception &) { kind = 3; }
+                    observed(i, kind, val, rk); break; }
                 case 5: { CbUser u(std::move(copy), i, rk); cocls::future<void> fin; u.done = fin.get_promise(); u.arm(); fin.wait(); break; }
                 default: { copy.sync(); int kind; long val = 0; try { val = copy.value().value(); kind = 1; } catch (const vs::TestError &e) { kind = 2; val = e.code; } catch (const cocls::await_canceled_exception &) { kind = 3; } observed(i, kind, val, rk); break; }
                 }
